@@ -27,7 +27,7 @@ from .. import Undecided
 from ..expr import canon, lin, call_name, unparse, negate, conj
 from ..model import stmt_text
 from ..expr import cmp_form
-from ..lts import Classifier, extract, compare, compile_spec, seq, alt, star, lit, opt
+from ..lts import Classifier, extract, method_callee, compare, compile_spec, seq, alt, star, lit, opt
 
 EXPLANATION = __doc__
 LEVEL_RULE = 'one obligation per clause instance on the paths / loop summaries of Sequence, Optional, Ref and the normalisers'
@@ -161,7 +161,7 @@ def sequence_modes(ctx, sq):
     if comp is None:
         raise Undecided('Sequence._compile not found')
     combos = set()
-    for p in repo.walker(max_paths=ctx.max_paths).paths(comp.node, cls=sq):
+    for p in repo.walker(max_paths=ctx.max_paths, split_ifexp=True).paths(comp.node, cls=sq):
         if p.raises():
             continue
         last = {}
@@ -199,7 +199,7 @@ def check_sequence_unpack(ctx, sq):
             name = '%s mode, %s' % ('count' if count_set else 'until', 'with when' if when_set else 'no when')
             ctx.unit('modes')
             try:
-                code = extract(fi.node, _SeqEvents(mode, params))
+                code = extract(fi.node, _SeqEvents(mode, params), callee=method_callee(repo, sq))
             except Undecided as e:
                 ctx.undecided(rule, fi, name, str(e), fi.node.lineno, clause='c')
                 continue
@@ -416,89 +416,161 @@ def check_ref(ctx, rf):
         ctx.violation(rule, fi, 'Ref: pack through a selector', 'expected a Packet path and a selector path; found %s' % sorted(seen), fi.node.lineno, clause='f')
 
 
-def check_normalisers(ctx):
-    repo = ctx.repo
-    rule = 'C08-normalisers'
-    fi = repo.module_funcs.get(('structural_fields', 'normalize_count_condition_into_a_callable'))
-    fr = repo.module_funcs.get(('structural_fields', 'normalize_raw_condition_into_a_callable'))
-    if fi is None or fr is None:
-        raise Undecided('anchor normalisers not found')
+def _normaliser_kinds(ctx, repo, fi, consts, role, rule):
+    """kinds of raw value the normaliser accepts in this role, each checked against what the
+    declared semantics says it becomes.  ``consts``: constant arguments of the call (a shared
+    normaliser told by a flag which role it plays)"""
+    a = fi.node.args
+    names = [x.arg for x in a.posonlyargs + a.args + a.kwonlyargs]
+    P = names[0]
+    defaults = dict(zip(reversed([x.arg for x in a.posonlyargs + a.args]), reversed(a.defaults)))
+    for x, d in zip(a.kwonlyargs, a.kw_defaults):
+        if d is not None:
+            defaults[x.arg] = d
+    bind = {n: (consts[n] if n in consts else defaults[n]) for n in names[1:] if n in consts or n in defaults}
     w = repo.walker()
-    P = fi.node.args.args[0].arg
     kinds = set()
-    for p in w.paths(fi.node):
+    label = 'count' if role == 'count' else 'condition'
+    for p in w.paths(fi.node, bind=dict(bind)):
         gt = gtexts(p)
         r = p.ret()
         if p.raises():
             kinds.add('reject')
             continue
-        if ('callable(%s)' % P) in gt and not any(g.startswith('not callable(%s)' % P) for g in gt) and not any('isinstance(%s' % P in g and not g.startswith('not ') for g in gt):
+        pos = [g for g in gt if not g.startswith('not ')]
+        if ('callable(%s)' % P) in pos and not any('isinstance(%s' % P in g for g in pos):
             kinds.add('callable')
             if r is None or canon(r) != P:
-                ctx.violation(rule, fi, 'callable -> %s' % (canon(r) if r is not None else None), 'a callable count must be used as is', fi.node.lineno, clause='g')
-        elif ('isinstance(%s, int)' % P) in gt:
+                ctx.violation(rule, fi, '%s: callable -> %s' % (label, canon(r) if r is not None else None), 'a callable must be used as is', fi.node.lineno, clause='g')
+        elif ('isinstance(%s, int)' % P) in pos:
             kinds.add('int')
-            if not (isinstance(r, ast.Lambda) and canon(r.body) == P):
+            if role == 'count' and not (isinstance(r, ast.Lambda) and canon(r.body) == P):
                 ctx.violation(rule, fi, 'int -> %s' % (canon(r) if r is not None else None), 'a constant count must become a function returning that constant', fi.node.lineno, clause='g')
-        elif ('isinstance(%s, Field)' % P) in gt:
+        elif ('isinstance(%s, Field)' % P) in pos:
             kinds.add('field')
-            ok = isinstance(r, ast.Lambda) and canon(r.body, {r.args.args[0].arg: 'PKT'}) == 'getattr(PKT, %s.field_name)' % P if isinstance(r, ast.Lambda) and r.args.args else False
-            if not ok:
-                ctx.violation(rule, fi, 'Field -> %s' % (canon(r) if r is not None else None), 'a field count must read that field\'s value from the packet', fi.node.lineno, clause='g')
-        elif any(('isinstance(%s, (UnaryExpr' % P) in g and not g.startswith('not ') for g in gt):
+            if role == 'count':
+                ok = isinstance(r, ast.Lambda) and bool(r.args.args) and canon(r.body, {r.args.args[0].arg: 'PKT'}) == 'getattr(PKT, %s.field_name)' % P
+                if not ok:
+                    ctx.violation(rule, fi, 'Field -> %s' % (canon(r) if r is not None else None), "a field count must read that field's value from the packet", fi.node.lineno, clause='g')
+            elif r is None or ('(%s)' % P) not in canon(r) or canon(r) in (P, 'compile_expr_into_callable(%s)' % P):
+                ctx.violation(rule, fi, 'condition: Field -> %s' % (canon(r) if r is not None else None), 'a field used as a condition must become the compiled truth expression of that field', fi.node.lineno, clause='g')
+        elif any(('isinstance(%s, (UnaryExpr' % P) in g for g in pos):
             kinds.add('expr')
             if r is None or canon(r) != 'compile_expr_into_callable(%s)' % P:
-                ctx.violation(rule, fi, 'expression -> %s' % (canon(r) if r is not None else None), 'a field expression must be compiled', fi.node.lineno, clause='g')
-        elif p.raises():
-            kinds.add('reject')
-    if kinds >= {'callable', 'int', 'field', 'expr', 'reject'}:
-        ctx.holds(rule, fi, 'count: callable | int | Field | expression | else ValueError', 'every accepted kind is normalised as declared', fi.node.lineno, clause='g')
-    else:
-        ctx.violation(rule, fi, 'count kinds handled: %s' % sorted(kinds), 'expected callable, int, Field, expression and a rejecting path', fi.node.lineno, clause='g')
-    P = fr.node.args.args[0].arg
-    kinds = set()
-    for p in w.paths(fr.node):
-        gt = gtexts(p)
-        r = p.ret()
+                ctx.violation(rule, fi, '%s: expression -> %s' % (label, canon(r) if r is not None else None), 'a field expression must be compiled', fi.node.lineno, clause='g')
+    return kinds
+
+
+def _follow_wrapper(repo, fi, consts):
+    """a normaliser that only forwards its argument to another one with constant options"""
+    for _ in range(3):
+        body = [x for x in fi.node.body if not (isinstance(x, ast.Expr) and isinstance(x.value, ast.Constant))]
+        a = fi.node.args
+        if len(body) != 1 or not isinstance(body[0], ast.Return) or not isinstance(body[0].value, ast.Call) or len(a.args) != 1 or consts:
+            return fi, consts
+        c = body[0].value
+        if not (isinstance(c.func, ast.Name) and len(c.args) >= 1 and canon(c.args[0]) == a.args[0].arg):
+            return fi, consts
+        g = repo.module_funcs.get((fi.module, c.func.id))
+        if g is None or g is fi:
+            return fi, consts
+        names = [x.arg for x in g.node.args.posonlyargs + g.node.args.args]
+        cs = {}
+        for n, x in list(zip(names[1:], c.args[1:])) + [(k.arg, k.value) for k in c.keywords]:
+            if n is None or not isinstance(x, ast.Constant):
+                return fi, consts
+            cs[n] = x.value
+        fi, consts = g, tuple(sorted(cs.items()))
+    return fi, consts
+
+
+def _routes(ctx, repo, cls, attrs):
+    """attr -> set of (normaliser FuncInfo | None, canonical first argument, constant arguments, text)
+    over the non-None values _compile stores"""
+    comp = cls.methods.get('_compile')
+    got = {k: set() for k in attrs}
+    for p in repo.walker(max_paths=ctx.max_paths).paths(comp.node, cls=cls):
         if p.raises():
-            kinds.add('reject')
-        elif r is not None and canon(r) == P:
-            kinds.add('callable')
-        elif r is not None and 'compile_expr_into_callable(' in canon(r):
-            kinds.add('field' if 'convert_a_field_raw_condition' in canon(r) else 'expr')
-    if kinds >= {'callable', 'field', 'expr', 'reject'}:
-        ctx.holds(rule, fr, 'condition: callable | Field -> truth expression -> compiled | expression -> compiled | else ValueError', 'every accepted kind is normalised as declared', fr.node.lineno, clause='g')
-    else:
-        ctx.violation(rule, fr, 'condition kinds handled: %s' % sorted(kinds), 'expected callable, Field, expression and a rejecting path', fr.node.lineno, clause='g')
-    # Sequence._compile / Optional._compile route count / until / when through the normalisers
+            continue
+        for e in p.effects:
+            if e.kind == 'store_attr' and canon(e.obj) == 'self' and e.name in attrs and not (isinstance(e.value, ast.Constant) and e.value.value is None):
+                v = e.value
+                if isinstance(v, ast.IfExp):
+                    v = v.orelse if (isinstance(v.body, ast.Constant) and v.body.value is None) else v.body
+                f, arg, consts = None, None, ()
+                if isinstance(v, ast.Call) and isinstance(v.func, ast.Name) and v.args and not any(isinstance(x, ast.Starred) for x in v.args):
+                    f = repo.module_funcs.get(('structural_fields', v.func.id))
+                    arg = canon(v.args[0])
+                    if f is not None:
+                        names = [x.arg for x in f.node.args.posonlyargs + f.node.args.args]
+                        cs = {}
+                        okc = True
+                        for n, x in list(zip(names[1:], v.args[1:])) + [(k.arg, k.value) for k in v.keywords]:
+                            if n is None or not isinstance(x, ast.Constant):
+                                okc = False
+                            else:
+                                cs[n] = x.value
+                        consts = tuple(sorted(cs.items())) if okc else None
+                got[e.name].add((f.id if f is not None else None, arg, consts, canon(v)))
+    return got
+
+
+def check_normalisers(ctx):
+    """count / until / when reach the run-time attributes through a normaliser that, for that
+    role, turns every accepted kind of raw value into what the declared semantics says -- whether
+    there is one normaliser per role or a shared one told its role by a constant argument"""
+    repo = ctx.repo
+    rule = 'C08-normalisers'
     sqc = repo.cls('Sequence')
     sq = sqc.methods.get('_compile')
     ctor = sqc.methods.get('__init__')
+    if sq is None or ctor is None:
+        raise Undecided('anchor Sequence._compile / __init__ not found')
     tm = [n for n in ast.walk(ctor.node) if isinstance(n, ast.Assign) and canon(n.targets[0]) == 'self.tmp']
     order = [canon(x) for x in tm[0].value.elts] if tm and isinstance(tm[0].value, ast.Tuple) else None
+    roles = {'get_how_many_elements': 'count', 'until_condition': 'until', 'when': 'when'}
+    seen = {}
     if order is None or sorted(order) != ['count', 'until', 'when']:
         ctx.violation(rule, ctor, 'self.tmp = %s' % (canon(tm[0].value) if tm else None), 'count / until / when are not kept for _compile', ctor.node.lineno, clause='g')
     else:
         idx = {nm: 'self.tmp[%d]' % i for i, nm in enumerate(order)}
-        w2 = repo.walker(max_paths=ctx.max_paths)
-        want = {'get_how_many_elements': 'normalize_count_condition_into_a_callable(%s)' % idx['count'],
-                'until_condition': 'normalize_raw_condition_into_a_callable(%s)' % idx['until'],
-                'when': 'normalize_raw_condition_into_a_callable(%s)' % idx['when']}
-        got = {k: set() for k in want}
-        for p in w2.paths(sq.node, cls=sqc):
-            if p.raises():
-                continue
-            for e in p.effects:
-                if e.kind == 'store_attr' and canon(e.obj) == 'self' and e.name in want and not (isinstance(e.value, ast.Constant) and e.value.value is None):
-                    v = e.value
-                    if isinstance(v, ast.IfExp):
-                        v = v.orelse if (isinstance(v.body, ast.Constant) and v.body.value is None) else v.body
-                    got[e.name].add(canon(v))
-        bad = {k: sorted(v) for k, v in got.items() if v != {want[k]}}
+        got = _routes(ctx, repo, sqc, set(roles))
+        bad = {}
+        for attr, role in roles.items():
+            for fid, arg, consts, text in got[attr]:
+                if fid is None or consts is None:
+                    bad[attr] = 'stored from %s, which is not a call of a normaliser of this module with constant options' % text
+                elif arg != idx[role]:
+                    bad[attr] = 'normalised from %s, but the constructor keeps %s in %s' % (arg, role, idx[role])
+                else:
+                    seen.setdefault(('count' if role == 'count' else 'condition', fid, consts), []).append(attr)
+            if not got[attr]:
+                bad[attr] = 'never set to a normalised value'
         if not bad:
-            ctx.holds(rule, sq, 'Sequence._compile: count -> count normaliser, until / when -> condition normaliser (slots %s)' % order, 'declared roles, same order as stored by the constructor', sq.node.lineno, clause='g')
+            ctx.holds(rule, sq, 'Sequence._compile: count / until / when each normalised from its own constructor slot %s' % order, 'declared roles, same order as stored by the constructor', sq.node.lineno, clause='g')
         else:
-            ctx.violation(rule, sq, 'Sequence._compile: %s' % bad, 'count / until / when are not routed to their own normalisers (expected %s)' % {k: want[k] for k in bad}, sq.node.lineno, clause='g')
+            ctx.violation(rule, sq, 'Sequence._compile: %s' % bad, 'count / until / when are not routed through a normaliser from their own slots', sq.node.lineno, clause='g')
+    opc = repo.cls('Optional')
+    gotw = _routes(ctx, repo, opc, {'when'})
+    for fid, arg, consts, text in gotw['when']:
+        if fid is not None and consts is not None and arg == 'self.tmp':
+            seen.setdefault(('condition', fid, consts), []).append('Optional.when')
+    for (role, fid, consts), attrs in sorted(seen.items()):
+        fi, consts = _follow_wrapper(repo, repo.functions[fid], consts)
+        ctx.unit('functions')
+        kinds = _normaliser_kinds(ctx, repo, fi, dict((k, ast.Constant(value=v)) for k, v in consts), role, rule)
+        want = {'callable', 'int', 'field', 'expr', 'reject'} if role == 'count' else {'callable', 'field', 'expr', 'reject'}
+        opts = ('(%s)' % ', '.join('%s=%r' % kv for kv in consts)) if consts else ''
+        if kinds >= want and (role == 'count' or 'int' not in kinds):
+            ctx.holds(rule, fi, '%s%s as the %s normaliser (%s): %s' % (fi.qual, opts, role, ', '.join(sorted(attrs)),
+                      'callable | int | Field | expression | else ValueError' if role == 'count' else 'callable | Field -> truth expression -> compiled | expression -> compiled | else ValueError'),
+                      'every accepted kind is normalised as declared', fi.node.lineno, clause='g')
+        else:
+            ctx.violation(rule, fi, '%s%s as the %s normaliser: kinds handled %s' % (fi.qual, opts, role, sorted(kinds)),
+                          'expected %s' % sorted(want), fi.node.lineno, clause='g')
+    if not any(r == 'count' for r, _, _ in seen) or not any(r == 'condition' for r, _, _ in seen):
+        if not any(o.rule == rule and o.verdict != 'HOLDS' for o in ctx.obs):
+            ctx.undecided(rule, sq, 'normalisers', 'no normaliser call found for the count / the conditions', sq.node.lineno, clause='g')
     opc = repo.cls('Optional')
     op = opc.methods.get('_compile')
     okw = False
